@@ -1,2 +1,3 @@
 import Rp2.Props.C09
 #print axioms Rp2.C09.earlier_fractions_unchanged
+#print axioms Rp2.C09.model_to_date_run_is_prefix_of_full_run
